@@ -4,8 +4,8 @@ EXTENDS Vol, Scen
 CONSTANTS MaxFiles, Big      \* Big: member sizes around the 128 KiB copy chunk instead of the small residues
 VARIABLES kind, fset, fsz
 vars == <<kind, fset, fsz>>
-\* name pool built to hit the ordering corners: "a" "A" "B" "ab" "a_" "a.b" "Z9" "a-"
-Pool == << <<97>>, <<65>>, <<66>>, <<97,98>>, <<97,95>>, <<97,46,98>>, <<90,57>>, <<97,45>> >>
+\* name pool built to hit the ordering corners: "a" "A" "B" "ab" "a_" "a.b" "Z9" "a-" ".a"
+Pool == << <<97>>, <<65>>, <<66>>, <<97,98>>, <<97,95>>, <<97,46,98>>, <<90,57>>, <<97,45>>, <<46,97>> >>      \* ... and ".a": a leading dot is part of the name
 Sizes == IF Big THEN {131071, 131072, 131073, 262144} ELSE {0, 1, 2, 3, 4, 5}
 Dirs == << <<>>, <<46,47>>, <<100,47>>, <<68,47>> >>          \* "", "./", "d/", "D/"
 OutName == <<111,46,118,111,108>>                             \* "o.vol"
